@@ -312,10 +312,22 @@ pub fn run(ctx: &mut Ctx) {
             ctx.fail("panic", format!("evaluator panicked on {s:?}: {p}"), json!({"kind": "bytes", "text": s}));
         }
     }
-    for shape in [format!("{}1", "-".repeat(200_000)), format!("1{}", "+1".repeat(200_000)), format!("{}1{}", "(".repeat(100_000), ")".repeat(100_000)), "9".repeat(900_000), format!("1{}", "_1".repeat(300_000)), format!("1:{}", "0".repeat(500_000))] {
+    let shapes: Vec<String> = vec![format!("{}1", "-".repeat(200_000)), format!("1{}", "+1".repeat(200_000)), format!("{}1{}", "(".repeat(100_000), ")".repeat(100_000)), "9".repeat(900_000), format!("1{}", "_1".repeat(300_000)), format!("1:{}", "0".repeat(500_000))];
+    // a child process evaluates each shape first: a stack overflow kills the process, not the check
+    if let Ok(k) = std::env::var("VERIF_C19_SHAPE") {
+        let k: usize = k.parse().unwrap_or(0);
+        let _ = hooks::robotics_eval(&shapes[k.min(shapes.len() - 1)], 0);
+        std::process::exit(0);
+    }
+    for (k, shape) in shapes.iter().enumerate() {
         ctx.direct_evaluations += 1;
+        let child = std::process::Command::new(std::env::current_exe().unwrap()).arg("c19").env("VERIF_C19_SHAPE", k.to_string()).output();
+        if !child.as_ref().map(|o| o.status.success()).unwrap_or(false) {
+            ctx.fail("unbounded-recursion", format!("evaluating {} bytes starting {:?} kills the process ({:?}): recursion is not bounded by the depth limit", shape.len(), &shape[..8], child.map(|o| o.status)), json!({"kind": "shape", "prefix": &shape[..8], "len": shape.len(), "text_rule": "prefix repeated"}));
+            continue;
+        }
         let t = std::time::Instant::now();
-        if let Err(p) = util::no_panic(|| hooks::robotics_eval(&shape, 0)) {
+        if let Err(p) = util::no_panic(|| hooks::robotics_eval(shape, 0)) {
             ctx.fail("panic", format!("evaluator panicked on a {}-byte input starting {:?}: {p}", shape.len(), &shape[..8]), json!({"kind": "shape", "prefix": &shape[..8], "len": shape.len()}));
         }
         if t.elapsed().as_secs_f64() > 5.0 {
@@ -374,6 +386,17 @@ pub fn run(ctx: &mut Ctx) {
         let r = serde_saphyr::from_str_with_options::<f64>(&format!("{t}\n"), opts(true));
         if r.as_ref().ok().map(|v| v.to_bits()) != Some(want.to_bits()) {
             ctx.fail("angle-tag-pipeline", format!("{t:?} with the option on gives {r:?}, expected {want}"), json!({"kind": "tagged", "text": t}));
+        }
+    }
+    // a bare number under a degrees tag: the f64 product, rounded once to the target
+    for n in 1..=360u32 {
+        ctx.direct_evaluations += 1;
+        let want64 = (n as f64) * DEG2RAD;
+        let got64 = serde_saphyr::from_str_with_options::<f64>(&format!("!degrees {n}\n"), opts(true)).ok().map(f64::to_bits);
+        let got32 = serde_saphyr::from_str_with_options::<f32>(&format!("!degrees {n}\n"), opts(true)).ok().map(f32::to_bits);
+        let fun32 = serde_saphyr::from_str_with_options::<f32>(&format!("deg({n})\n"), opts(true)).ok().map(f32::to_bits);
+        if got64 != Some(want64.to_bits()) || got32 != Some((want64 as f32).to_bits()) || got32 != fun32 {
+            ctx.fail("degrees-tag-value", format!("!degrees {n}: f64 {got64:x?} (expected {:x}), f32 {got32:x?} (expected {:x}; deg({n}) gives {fun32:x?})", want64.to_bits(), (want64 as f32).to_bits()), json!({"kind": "degrees_tag", "n": n}));
         }
     }
     ctx.witness("F16", serde_saphyr::from_str_with_options::<f32>("1.00000005960464477539062500000001\n", opts(true)).ok().map(f32::to_bits) != Some(0x3F80_0001), "f32 literal just above a rounding midpoint is double-rounded with the option on");
